@@ -12,7 +12,8 @@ VALID = [{"set": {"transactionId": 1, "key": "a/b", "value": 1}}, {"get": {"tran
          {"releaseLock": {"transactionId": 11, "key": "never/locked/deep"}}, {"ls": {"transactionId": 12, "parent": None}}, {"subscribeLs": {"transactionId": 13, "parent": "a"}},
          {"delete": {"transactionId": 14, "key": "a/b"}}, {"cSet": {"transactionId": 15, "key": "x/y/z", "value": 1, "version": 9}},
          {"set": {"transactionId": 16, "key": "v", "value": None}}, {"unsubscribe": {"transactionId": 6}}, {"transform": {"transactionId": 17, "key": "a", "template": {}}},
-         {"protocolSwitchRequest": {"version": 0}}, {"sPubInit": {"transactionId": 18, "key": "s"}}, {"sPub": {"transactionId": 18, "value": 1}}]
+         {"protocolSwitchRequest": {"version": 0}}, {"protocolSwitchRequest": {"version": 7}}, {"protocolSwitchRequest": {"version": 4294967295}}, {"protocolSwitchRequest": {"version": 2}},
+         {"authorizationRequest": {"authToken": "not.a.token"}}, {"sPubInit": {"transactionId": 18, "key": "s"}}, {"sPub": {"transactionId": 18, "value": 1}}]
 ODD_KEYS = ["", "/", "//", "a//b", "?", "#", "a/#/b", "#/#", "$SYS", "$SYS/clients", "\u0000", "x" * 3000, "/".join(["d"] * 300), "é🙂", " ", "a/ /b"]
 
 def mutate(r, m):
